@@ -261,11 +261,10 @@ class CachedMapper(Mapper):
         return (type(expr), expr, args, immutabledict(kwargs))
 
     def __call__(self, expr, *args, **kwargs):
-        if isinstance(expr, (list, tuple)) or is_numpy_array(expr):
-            # Lists and arrays are not hashable (nor is a tuple that holds
-            # one), so there is nothing to look up: dispatch like the
-            # uncached mapper does. The entries come back through rec and
-            # are memoized one by one.
+        if isinstance(expr, list) or is_numpy_array(expr):
+            # Not hashable, so there is nothing to look up: dispatch like
+            # the uncached mapper does. The entries come back through rec
+            # and are memoized one by one.
             return Mapper.__call__(self, expr, *args, **kwargs)
 
         result = self._cache.get(
